@@ -305,7 +305,7 @@ func Array[V any](arguments ...any) col.ArrayLike[V] {
 		var index int = 0
 		var iterator = collection.GetIterator()
 		for iterator.HasNext() {
-			var value = iterator.GetNext().(V)
+			var value = convertValue[V](iterator.GetNext())
 			index++ // Indices are ORDINAL based.
 			array.SetValue(index, value)
 		}
@@ -377,8 +377,8 @@ func Catalog[K comparable, V any](arguments ...any) col.CatalogLike[K, V] {
 		var iterator = collection.GetIterator()
 		for iterator.HasNext() {
 			var association = iterator.GetNext()
-			var key = association.GetKey().(K)
-			var value = association.GetValue().(V)
+			var key = convertValue[K](association.GetKey())
+			var value = convertValue[V](association.GetValue())
 			catalog.SetValue(key, value)
 		}
 	default:
@@ -442,7 +442,7 @@ func List[V any](arguments ...any) col.ListLike[V] {
 		// Convert the values to their real type.
 		var iterator = collection.GetIterator()
 		for iterator.HasNext() {
-			var value = iterator.GetNext().(V)
+			var value = convertValue[V](iterator.GetNext())
 			list.AppendValue(value)
 		}
 	default:
@@ -513,8 +513,8 @@ func Map[K comparable, V any](arguments ...any) col.MapLike[K, V] {
 		var iterator = collection.GetIterator()
 		for iterator.HasNext() {
 			var association = iterator.GetNext()
-			var key = association.GetKey().(K)
-			var value = association.GetValue().(V)
+			var key = convertValue[K](association.GetKey())
+			var value = convertValue[V](association.GetValue())
 			map_.SetValue(key, value)
 		}
 	default:
@@ -591,7 +591,7 @@ func Queue[V any](arguments ...any) col.QueueLike[V] {
 		// Convert the values to their real type.
 		var iterator = collection.GetIterator()
 		for iterator.HasNext() {
-			var value = iterator.GetNext().(V)
+			var value = convertValue[V](iterator.GetNext())
 			queue.AddValue(value)
 		}
 	default:
@@ -663,7 +663,7 @@ func Set[V any](arguments ...any) col.SetLike[V] {
 			// Convert the values to their real type.
 			var iterator = collection.GetIterator()
 			for iterator.HasNext() {
-				var value = iterator.GetNext().(V)
+				var value = convertValue[V](iterator.GetNext())
 				set.AddValue(value)
 			}
 		}
@@ -677,7 +677,7 @@ func Set[V any](arguments ...any) col.SetLike[V] {
 		// Convert the values to their real type.
 		var iterator = collection.GetIterator()
 		for iterator.HasNext() {
-			var value = iterator.GetNext().(V)
+			var value = convertValue[V](iterator.GetNext())
 			set.AddValue(value)
 		}
 	default:
@@ -750,7 +750,7 @@ func Stack[V any](arguments ...any) col.StackLike[V] {
 		var array = make([]V, 0, collection.GetSize())
 		var iterator = collection.GetIterator()
 		for iterator.HasNext() {
-			var value = iterator.GetNext().(V)
+			var value = convertValue[V](iterator.GetNext())
 			array = append(array, value)
 		}
 		stack = class.MakeFromArray(array)
@@ -758,4 +758,26 @@ func Stack[V any](arguments ...any) col.StackLike[V] {
 		stack = class.Make()
 	}
 	return stack
+}
+
+// PRIVATE FUNCTIONS
+
+// This private function converts a value parsed from a source string into the
+// value type of the collection being constructed.  An undefined (nil) value is
+// a value of any interface type, which a plain type assertion would refuse.
+func convertValue[V any](value any) V {
+	var result, ok = value.(V)
+	if !ok {
+		var type_ = ref.TypeOf((*V)(nil)).Elem()
+		if value != nil || type_.Kind() != ref.Interface {
+			var message = fmt.Sprintf(
+				"The parsed value %v(%T) is not of the expected type: %v\n",
+				value,
+				value,
+				type_,
+			)
+			panic(message)
+		}
+	}
+	return result
 }
